@@ -181,9 +181,7 @@ Definition c01_base_domain (w : wcase) : bool :=
   | _ => false
   end.
 
-(* ... restricted to the domain D of walk_calls_exact_on_D *)
-Definition c01_domain (w : wcase) : bool :=
-  c01_base_domain w && match w_roots w with [t] => dom_C01 (cfg_of_case w) t | _ => false end.
+Definition c01_domain (w : wcase) : bool := c01_base_domain w.
 
 (* the specification evaluated on the implementation's own observable behaviour *)
 Definition c01_spec_on_obs (w : wcase) : bool :=
@@ -210,7 +208,6 @@ Definition c01_paths_domain (w : wcase) : bool :=
       let c := cfg_of_case w in
       wf_tree t && fault_free t && no_limits c && xt_no_panic w && nodup_b ln_eqb (w_exts w)
       && negb (match w_paths w with [] => true | _ => false end)
-      && dom_C01 c t
       && forallb (fun p => canonical_path p &&
                            match lookup_from t (spath p) with
                            | Some (Dir _ _ _) => reached (whole_tree c) t (spath p)
@@ -312,7 +309,7 @@ Definition scan_sorted (o : obs) : bool :=
 Definition c08_multi_base (w : wcase) : bool :=
   let c := cfg_of_case w in
   (1 <? length (w_roots w))%nat
-  && forallb (fun t => wf_tree t && fault_free t && dom_C01 c t) (w_roots w)
+  && forallb (fun t => wf_tree t && fault_free t) (w_roots w)
   && no_limits c && xt_no_panic w && nodup_b ln_eqb (w_exts w)
   && match w_paths w with [] => true | _ => false end.
 
@@ -324,10 +321,10 @@ Definition c08_union_on_obs (w : wcase) : bool :=
 
 Definition c08_status_once_on_obs (w : wcase) : bool := nodup_b ln_eqb (map fst (o_status (w_obs w))).
 
-Definition c08_multi_domain (w : wcase) : bool := c08_multi_base w && dom_multiroot (cfg_of_case w) (w_roots w).
+Definition c08_multi_domain (w : wcase) : bool := c08_multi_base w.
 
 Definition case_spec_ok_C08 (w : wcase) : bool :=
-  scan_sorted (w_obs w) && (negb (c08_multi_domain w) || c08_union_on_obs w).
+  scan_sorted (w_obs w) && (negb (c08_multi_domain w) || (c08_union_on_obs w && c08_status_once_on_obs w)).
 
 (* ------------------------------------------------------------------ C09 oracle *)
 (* every directory on the way to segs opens and lists the next segment before its read failure *)
@@ -361,7 +358,8 @@ Definition call_outcome (c : cfg) (t : node) (ep : list N * list N) : option (op
   if negb (node_stat_fails t) && reach_ok t q then
     match lookup_from t q with
     | Some (File _ _ _ _ ff) =>
-        if ff_open ff then Some (Some (fst ep, (EkOpen, snd ep)))
+        if (0 <? c_max_size c)%Z && ff_stat ff then None          (* size unknown: the file is skipped *)
+        else if ff_open ff then Some (Some (fst ep, (EkOpen, snd ep)))
         else if ff_fstat ff then Some (Some (fst ep, (EkFstat, snd ep)))
         else if errs_flag (c_extract c (fst ep) (snd ep)) then Some (Some (fst ep, (EkExtract, snd ep)))
         else Some None
@@ -374,7 +372,7 @@ Definition expected_status_faulty (c : cfg) (t : node) (exp : list (list N * lis
                                   | Some (Some (e', it)) => if ln_eqb e' e then [it] else []
                                   | _ => []
                                   end) exp in
-  let found := existsb (fun ep => ln_eqb (fst ep) e && not_lost t (snd ep) &&
+  let found := existsb (fun ep => ln_eqb (fst ep) e && not_lost c t (snd ep) &&
                                   match pkgs_of (c_extract c (fst ep) (snd ep)) with [] => false | _ => true end) exp in
   match errs with
   | [] => StSucceeded
@@ -387,7 +385,7 @@ Definition c09_domain (w : wcase) : bool :=
       let c := cfg_of_case w in
       wf_tree t && no_limits c && xt_no_panic w && nodup_b ln_eqb (w_exts w)
       && match w_paths w with [] => true | _ => false end
-      && dom_C01 c (erase_faults t) && tree_quiet c t
+      && tree_quiet c t
   | _ => false
   end.
 
@@ -402,8 +400,8 @@ Definition c09_spec_on_obs (w : wcase) : bool :=
         if trav_fault_spec c t then oclass_eqb (o_class o) (OErr AbFs) else oclass_eqb (o_class o) OOk
       else
         oclass_eqb (o_class o) OOk
-        && list_eqb ep_eqb (calls (o_events o)) (filter (fun ep => not_lost t (snd ep)) exp)
-        && list_eqb tpkg_eqb (o_inv o) (inventory_of_calls c (filter (fun ep => not_lost t (snd ep)) exp))
+        && list_eqb ep_eqb (calls (o_events o)) (filter (fun ep => not_lost c t (snd ep)) exp)
+        && list_eqb tpkg_eqb (o_inv o) (inventory_of_calls c (filter (fun ep => not_lost c t (snd ep)) exp))
         && list_eqb est_eqb (o_status o) (map (fun e => (e, expected_status_faulty c t exp e)) (c_exts c))
   | _ => true
   end.
@@ -417,7 +415,6 @@ Definition c09_base_domain (w : wcase) : bool :=
       let c := cfg_of_case w in
       wf_tree t && no_limits c && xt_no_panic w && nodup_b ln_eqb (w_exts w)
       && match w_paths w with [] => true | _ => false end
-      && dom_C01 c (erase_faults t)
   | _ => false
   end.
 
@@ -452,7 +449,7 @@ Definition c10_bounds_on_obs (w : wcase) : bool :=
          extracts_before (o_events o) 0 0
            (fun _ nx p => (nx <? j)%nat || match nth_error cs (j - 1) with Some ep => ln_eqb (snd ep) p | None => false end)
      end
-  && (c_gitignore c || negb (oclass_eqb (o_class o) OPanic)).
+  && negb (oclass_eqb (o_class o) OPanic).
 
 (* fails exactly when work remained: single root, whole-tree scan, non-fatal, quiet tree *)
 Definition c10_iff_domain (w : wcase) : bool :=
@@ -460,7 +457,6 @@ Definition c10_iff_domain (w : wcase) : bool :=
   | [t] =>
       let c := cfg_of_case w in
       negb (c_fatal c) && xt_no_panic w && tree_quiet c t && match w_paths w with [] => true | _ => false end
-      && negb (c_gitignore c)
       && match c_cancel c with
          | NoCancel => (0 <? c_max_inodes c)%Z
          | CancelAtVisit _ => (c_max_inodes c <=? 0)%Z
@@ -500,7 +496,7 @@ Definition c10_panics_on_obs (w : wcase) : bool := oclass_eqb (o_class (w_obs w)
 Definition c01_multi_domain (w : wcase) : bool :=
   let c := cfg_of_case w in
   (1 <? length (w_roots w))%nat
-  && forallb (fun t => wf_tree t && fault_free t && dom_C01 c t) (w_roots w)
+  && forallb (fun t => wf_tree t && fault_free t) (w_roots w)
   && no_limits c && xt_no_panic w && nodup_b ln_eqb (w_exts w)
   && match w_paths w with [] => true | _ => false end.
 
